@@ -56,7 +56,7 @@ func genWKB(t *rapid.T) ([]byte, string, bool) {
 		return rapid.SliceOfN(rapid.Byte(), 0, 64).Draw(t, "bytes"), src, false
 	}
 	g, orders := genValid(t)
-	if rapid.IntRange(0, 59).Draw(t, "longarr") == 0 {
+	if rapid.IntRange(0, 39).Draw(t, "longarr") == 0 {
 		// a point array longer than the decoder's 1024-point read block, really present in the input (16-50 KiB),
 		// alone or nested: the count mutations below then inflate a count whose first blocks can be read
 		n := rapid.SampledFrom([]int{1024, 1025, 1500, 2048, 2049, 3000}).Draw(t, "longn")
@@ -64,7 +64,19 @@ func genWKB(t *rapid.T) ([]byte, string, bool) {
 		for i := range pts {
 			pts[i] = vkit.MkP(float64(i), float64(-i))
 		}
-		switch rapid.IntRange(0, 3).Draw(t, "longwrap") {
+		switch rapid.IntRange(0, 5).Draw(t, "longwrap") {
+		case 4, 5:
+			// several long rings in one polygon (anything the rings of a polygon share - a buffer, a counter - has been
+			// through a full block when the next long ring comes), each a full block, one point less or more, or two blocks
+			var rings [][]vkit.P2
+			for k, nr := 0, rapid.IntRange(2, 3).Draw(t, "longrings"); k < nr; k++ {
+				m := rapid.SampledFrom([]int{1024, 1024, 1023, 1025, 2048, 5}).Draw(t, "longringn")
+				if m > n {
+					m = n
+				}
+				rings = append(rings, pts[:m])
+			}
+			g = vkit.GJ{T: "Polygon", Rings: rings}
 		case 0:
 			g = vkit.GJ{T: "LineString", Pts: pts}
 		case 1:
